@@ -10,6 +10,25 @@ LEVEL.update({"C15": "translation_validation", "C17": "exploration", "C18": "oth
 MC_QUICK = ["MC_any3"]
 MC_THOROUGH = ["MC_any3", "MC_any4", "MC_fifo5"]
 
+# implementation-shaped mechanism specifications, each model-checked to refine the abstract spec
+MECH = {
+    "C01": ["mechanisms/Links"], "C02": ["mechanisms/Links", "mechanisms/Walk"], "C03": ["mechanisms/Links"],
+    "C04": ["mechanisms/Links"], "C05": ["mechanisms/Links"], "C12": ["mechanisms/Links"],
+    "C06": ["mechanisms/Stamp", "mechanisms/Stamp_real"], "C07": ["mechanisms/FreeList", "mechanisms/Stamp"],
+    "C08": ["mechanisms/FreeList"], "C09": ["mechanisms/Walk"], "C10": ["mechanisms/DEIter"],
+    "C14": ["mechanisms/IndentWriter"],
+}
+MECH_THOROUGH = {"mechanisms/Links": "mechanisms/Links5", "mechanisms/Readers": "mechanisms/Readers3"}
+MECH_WHAT = {
+    "mechanisms/Links": "Links.tla: connect_neighbors / detach_from_siblings / rewrite_parents / transplant / insert_with_neighbors composed as the public calls compose them; TLC checks each call refines the Forest.tla operator, fails exactly when Reasons says so and leaves WellFormed, Acyclic, Bare links",
+    "mechanisms/Walk": "Walk.tla: the nine iterator cursor machines over every ordered forest up to MaxNodes; output equals the declarative sequence, no element twice, termination (liveness under weak fairness), next_traverse/prev_traverse inverse of each other",
+    "mechanisms/Stamp": "Stamp.tla: i16 generation arithmetic with a small MAXSTAMP and several slots, every interleaving of new_node/remove: no id reissued, is_removed law, retirement only at exhaustion",
+    "mechanisms/Stamp_real": "Stamp.tla with the real MAXSTAMP = 32767 for one slot (whole counter range and beyond its end)",
+    "mechanisms/FreeList": "FreeList.tla: the intrusive first/last/NextFree list refines the abstract FIFO of reusable slots: no cycle, no lost or doubled slot, no live payload overwritten",
+    "mechanisms/IndentWriter": "IndentWriter.tla: line_state / indent stack / open_item / close_item / write_str driven by the traversal loop; for every forest up to 4 nodes, every start node and every assignment of 1-3 lines the lines written equal Printer!Rendering",
+    "mechanisms/DEIter": "DEIter.tla: head/tail cursor machine of the double-ended iterators, all three constructors, every pull word up to n+2 on chains up to 6, with and without parent: refines the deque",
+}
+
 OUT_PROPS = ["C01", "C02", "C03", "C04", "C05", "C06", "C07", "C08", "C12", "C13"]
 MIXES = {
     "C01": ["move", "tops", "recycle", "mixed"],
@@ -57,6 +76,9 @@ def check_property(prop, tier):
     if prop in OUT_PROPS or prop in ("C16",):
         for m in (MC_QUICK if tier == "quick" else MC_THOROUGH):
             add_mc(v, run_mc(m), "TLC checks every invariant and action property of IndexTree.tla on all reachable model states")
+    for m in MECH.get(prop, []):
+        name = m if tier == "quick" or not os.path.exists(os.path.join(SPEC, MECH_THOROUGH.get(m, m) + ".cfg")) else MECH_THOROUGH.get(m, m)
+        add_mc(v, run_mc(name), MECH_WHAT[m])
 
     if prop in OUT_PROPS:
         for cfg in bundle_cfgs:
@@ -66,6 +88,10 @@ def check_property(prop, tier):
                 flags = ["--no-lookups"]
                 if prop != "C02":
                     flags.append("--no-observers")
+                else:
+                    det, _ = ensure_bundles("DETable")
+                    sh(["bash", "-c", "pigz -dc %s > %s.plain" % (det, det)])
+                    flags += ["--pulls", "--detable", det + ".plain"]
                 r = run_replay(b, path, flags, "%s-%s-%s" % (prop, cfg, profile))
                 add_replay(v, r, meta, "every call enabled in every reachable model state, %s build" % profile, [prop])
                 if prop in ("C01", "C02", "C12"):
@@ -100,12 +126,25 @@ def check_property(prop, tier):
             r = run_replay(build_harness("debug"), path, ["--roundtrip", "--no-observers", "--no-lookups"], "C16-" + cfg)
             add_replay(v, r, meta, "serde_json round trip at every reachable model state + one-step bisimulation of original and copy under every call", ["C16"])
 
+    if prop == "C14":
+        check_c14(v, tier)
+    if prop == "C15":
+        check_c15(v, tier)
+    if prop == "C17":
+        check_c17(v, tier)
+    if prop == "C18":
+        check_c18(v, tier)
+
     if prop in MIXES:
         b = build_harness("release" if prop in ("C05",) and SEED % 2 == 0 else "debug")
         specs = trace_specs(prop, tier)
         if prop in ("C06", "C07"):
             specs += boundary_specs(tier)
         r = run_traces(b, specs, prop)
+        if prop in ("C06", "C07"):
+            # the end of the generation counter again without debug assertions (a debug_assert can hide a reissue behind a panic)
+            r2 = run_traces(build_harness("release"), boundary_specs(tier) + trace_specs(prop, tier, n_quick=2, n_thorough=4), prop + "-release")
+            add_traces(v, r2, "generation-counter boundary and recycle-heavy histories on a release build")
         add_traces(v, r, "seeded random histories on the real crate validated event by event against IndexTree.tla (Trace.tla), all invariants and action properties evaluated at every step")
         if prop == "C05":
             # and the same in the other build mode
@@ -113,6 +152,180 @@ def check_property(prop, tier):
             r = run_traces(b2, trace_specs(prop, tier, n_quick=4, n_thorough=8), prop + "-otherbuild")
             add_traces(v, r, "the same drivers in the other build mode (debug assertions on/off)")
     return v.finish()
+
+
+def check_c14(v, tier):
+    cfg = "GenPrint_s4" if tier == "quick" else "GenPrint_s5"
+    path, meta = ensure_bundles(cfg)
+    for profile in (("debug",) if tier == "quick" else ("debug", "release")):
+        b = build_harness(profile)
+        out = os.path.join(vlib.RUN, "print-%s.json" % profile)
+        rc, o = sh(["bash", "-c", "set -o pipefail; pigz -dc %s | %s print --out %s" % (path, b, out)], timeout=3600)
+        if rc != 0:
+            raise ToolError("print harness failed: " + o[-2000:])
+        r = json.load(open(out))
+        if ("bundles:" + cfg) not in [p["part"] for p in v.cov["parts"]]:
+            v.cov["states"] += meta["states"]
+            v.cov["transitions"] += meta["transitions"]
+            v.cov["parts"].append({"part": "bundles:" + cfg, "what": "TLC enumerates every reachable forest, computes Printer!Rendering for every live start node under 6 line-count assignments and checks RenderingLaws on each",
+                                   "states": meta["states"], "transitions": meta["transitions"], "constants": meta["constants"],
+                                   "from_cache_keyed_by_spec_hash": meta["cached"], "computed_at": meta["at"]})
+        v.cov["traces_validated_against_impl"] += r["bundles"] - r["abandoned_policy"]
+        v.cov["evaluations"] += r["renderings"]
+        v.cov["distinct_nontrivial"] += r["multi_line_renderings"]
+        v.cov["parts"].append({"part": "print:" + profile, "what": "debug_pretty_print output of the real crate ({}, {:#}, {:?}, {:#?}) compared line by line with the TLC rendering",
+                               **{k: r[k] for k in ("bundles", "renderings", "multi_line_renderings", "lines_compared", "abandoned_policy", "debug_assertions")}})
+        v.cov["samples"] += r["samples"][:2]
+        v.add_findings(r["findings"], "print:" + profile)
+    v.assumptions.append("payload renderings: 1-3 lines, a 3-line payload has an empty middle line; lines whose payload text is empty are compared modulo trailing blanks")
+
+
+def check_c15(v, tier):
+    import macrogen
+    cfg = "TreeMacro6" if tier == "quick" else "TreeMacro7"
+    path, meta = ensure_bundles(cfg)
+    cases = []
+    import gzip
+    with gzip.open(path, "rt") as f:
+        for line in f:
+            if line.startswith("["):
+                cases += json.loads(line)
+    src, expect = macrogen.gen_cases(cases)
+    hd, tag = harness_dir()
+    d = os.path.join(vlib.RUN, "macrocases")
+    shutil.copytree(os.path.join(hd, "macrocases"), d)
+    open(os.path.join(d, "src", "cases.rs"), "w").write(src)
+    env = {"CARGO_TARGET_DIR": os.path.join(WORK, "target-macro" + tag), "CARGO_NET_OFFLINE": "true"}
+    with Lock("cargo-macro" + tag):
+        rc, out = sh(["cargo", "build", "--offline", "--quiet"], cwd=d, env=env, timeout=3600)
+    if rc != 0:
+        # a literal the macro must accept does not compile: that is a violation, not a tool error,
+        # unless nothing at all compiles (then the harness itself is broken)
+        if "cases.rs" in out and "error" in out:
+            v.add_findings([{"prop": "C15", "kind": "macro-rejects-input", "detail": "a generated tree! invocation does not compile: " + out[-1500:], "case": {"compiler_output": out[-4000:]}}], "macro")
+            return
+        raise ToolError("macro case crate does not build:\n" + out[-3000:])
+    rc, out = sh([os.path.join(env["CARGO_TARGET_DIR"], "debug", "macrocases")], timeout=600)
+    if rc != 0:
+        v.add_findings([{"prop": "C15", "kind": "macro-panics", "detail": "running the generated tree! invocations failed: " + out[-800:], "case": {"output": out[-4000:]}}], "macro")
+        return
+    got = json.loads(out.strip().splitlines()[-1])
+    fs = macrogen.compare(expect, got)
+    v.cov.update({"programs": len(expect), "disagreements_checked": len(expect)})
+    v.cov["evaluations"] += len(expect)
+    v.cov["distinct_nontrivial"] += len([e for e in expect if e["k"] >= 2])
+    v.cov["states"] += 1
+    v.cov["parts"].append({"part": "macro:" + cfg, "what": "every literal shape enumerated by TLC (TreeMacro.tla, which also checks flatten+interpret = meaning) x 4 root forms, spelling variants rotated; compiled against the repository's proc macro and run",
+                           "literal_shapes": len(cases), "invocations": len(expect), "max_nodes_below_root": max(c["k"] for c in cases),
+                           "from_cache_keyed_by_spec_hash": meta["cached"]})
+    v.cov["samples"] += [{"invocation": e["text"], "expected_children": e["kids"]} for e in expect[57:59]]
+    v.add_findings(fs, "macro")
+
+
+FEATURE_SETS_QUICK = [[], ["std"], ["std", "macros"], ["std", "par_iter"], ["std", "deser"], ["std", "macros", "par_iter", "deser"], ["par_iter", "deser"]]
+
+
+def check_c17(v, tier):
+    import itertools
+    sets = FEATURE_SETS_QUICK if tier == "quick" else [list(c) for n in range(5) for c in itertools.combinations(["std", "macros", "par_iter", "deser"], n)]
+    cfg = "Gen_s4g1" if tier == "quick" else "Gen_s4g2"
+    path, meta = ensure_bundles(cfg)
+    digests = {}
+    for fs_ in sets:
+        name = "+".join(fs_) or "no_std+alloc"
+        b = build_harness("debug", features=fs_)
+        r = run_replay(b, path, [], "C17-" + (name.replace("+", "_")))
+        digests[name] = r["digest"]
+        # every mismatch with the one specification in a non-default build is a C17 matter
+        for f in r["findings"]:
+            f["detail"] = "[features: %s] %s" % (name, f["detail"])
+            if fs_ != ["std", "macros", "par_iter", "deser"] and fs_ != ["std", "macros"]:
+                f["orig_prop"] = f["prop"]
+        add_replay(v, r, meta, "the exhaustive battery replayed by a harness built with indextree features {%s}" % name, OUT_PROPS + ["C09", "C11"])
+        if "par_iter" in fs_:
+            out = os.path.join(vlib.RUN, "thr-%s.json" % name.replace("+", "_"))
+            rc, o = sh(["bash", "-c", "set -o pipefail; pigz -dc %s | %s threads --threads 2 --every 9 --random 6 --seed %d --out %s" % (path, b, SEED, out)], timeout=3600)
+            if rc != 0:
+                raise ToolError("threads harness failed: " + o[-2000:])
+            t = json.load(open(out))
+            v.cov["parts"].append({"part": "par_iter:" + name, "what": "par_iter() visits exactly the nodes of iter()", "arenas": t["arenas"], "max_nodes": t["max_nodes"]})
+            v.add_findings([f for f in t["findings"] if f["prop"] == "C17"], "par_iter:" + name)
+    ds = set(digests.values())
+    v.cov["parts"].append({"part": "digests", "what": "digest of all results / links / iterator outputs per feature set; must be identical", "digests": digests})
+    if len(ds) != 1:
+        v.add_findings([{"prop": "C17", "kind": "feature-sets-disagree", "detail": "the observation digests of the exhaustive battery differ between feature sets: %s" % json.dumps(digests), "case": {"digests": digests}}], "digests")
+    # a build whose behaviour deviates from the specification while the default build conforms
+    default_viol = {(f["prop"], f["kind"]) for f in v.notes if "[features: std+macros+par_iter+deser]" in f["detail"]}
+    moved = []
+    for f in list(v.notes):
+        if f.get("orig_prop") and (f["orig_prop"], f["kind"]) not in default_viol:
+            g = dict(f)
+            g["prop"] = "C17"
+            moved.append(g)
+    v.notes = [f for f in v.notes if not (f.get("orig_prop") and (f["orig_prop"], f["kind"]) not in default_viol)]
+    v.add_findings(moved, "feature-specific")
+    v.level = "exploration"
+
+
+def check_c18(v, tier):
+    hd, tag = harness_dir()
+    # (a) type level: Send + Sync for every T: Send + Sync (only the loss of an auto trait can break this build)
+    env = {"CARGO_TARGET_DIR": os.path.join(WORK, "target-auto" + tag), "CARGO_NET_OFFLINE": "true"}
+    rc, out = sh(["cargo", "run", "--offline", "--quiet"], cwd=os.path.join(hd, "autotraits"), env=env, timeout=1800)
+    auto_ok = rc == 0 and "ok" in out
+    if not auto_ok:
+        if "cannot be sent between threads" in out or "cannot be shared between threads" in out or "Send" in out or "Sync" in out:
+            v.add_findings([{"prop": "C18", "kind": "auto-traits", "detail": "Arena<T>/Node<T>/NodeId are not Send + Sync for every T: Send + Sync: " + out[-1200:], "case": {"compiler_output": out[-4000:]}}], "autotraits")
+        else:
+            raise ToolError("autotraits crate does not build:\n" + out[-3000:])
+    # (b) source level guards of the model's assumption (not model-based, see DESIGN.md C18)
+    rc, out = sh(["cargo", "rustc", "--offline", "--quiet", "-p", "indextree", "--lib", "--", "-F", "unsafe_code"], cwd=REPO,
+                 env={"CARGO_TARGET_DIR": os.path.join(WORK, "target-unsafe" + tag)}, timeout=1800)
+    unsafe_ok = rc == 0
+    if not unsafe_ok:
+        if "unsafe" in out:
+            v.add_findings([{"prop": "C18", "kind": "unsafe-code", "detail": "the indextree library does not compile under -F unsafe_code: " + out[-800:], "case": {"compiler_output": out[-3000:]}}], "forbid-unsafe")
+        else:
+            raise ToolError("cargo rustc -F unsafe_code failed for another reason:\n" + out[-3000:])
+    import re as _re
+    hits = []
+    for fn in sorted(glob.glob(os.path.join(REPO, "indextree", "src", "*.rs"))):
+        for i, line in enumerate(open(fn), 1):
+            code = line.split("//")[0]
+            if _re.search(r"\b(Cell|RefCell|UnsafeCell|OnceCell|Atomic\w+|Mutex|RwLock|static\s+mut|thread_local)\b", code):
+                hits.append("%s:%d: %s" % (os.path.relpath(fn, REPO), i, line.strip()))
+    if hits:
+        v.add_findings([{"prop": "C18", "kind": "interior-mutability", "detail": "interior mutability / shared mutable state in the library source: " + "; ".join(hits[:5]), "case": {"hits": hits}}], "source-scan")
+    # (c) model: Readers.tla - N concurrent readers over one shared forest, all interleavings
+    mc = None
+    if os.path.exists(os.path.join(SPEC, "mechanisms", "Readers.cfg")):
+        mc = run_mc("mechanisms/Readers")
+        add_mc(v, mc, "TLC explores every interleaving of concurrent reader cursor machines over one shared forest: each reader's output equals the sequential one; no action writes the forest")
+    # (d) binding: real threads on real arenas
+    cfg = "Gen_s4g1"
+    path, meta = ensure_bundles(cfg)
+    b = build_harness("release")
+    out = os.path.join(vlib.RUN, "threads.json")
+    every = 5 if tier == "quick" else 1
+    rc, o = sh(["bash", "-c", "set -o pipefail; pigz -dc %s | %s threads --threads 16 --every %d --random %d --seed %d --out %s" % (path, b, every, 30 if tier == "quick" else 200, SEED, out)], timeout=7200)
+    if rc != 0:
+        raise ToolError("threads harness failed: " + o[-2000:])
+    t = json.load(open(out))
+    v.cov["traces_validated_against_impl"] += t["thread_logs"]
+    v.cov["evaluations"] += t["thread_logs"]
+    v.cov["distinct_nontrivial"] += t["arenas"]
+    v.cov["explanation"] = ("Type-level part decided by the compiler on a crate that only asserts Send+Sync for every T: Send+Sync (%s); "
+                            "'no unsafe code' by compiling the library under -F unsafe_code (%s) and 'no interior mutability' by a source scan (%d hits) - these two are "
+                            "facts about the source text that a TLA+ model can only assume, they are guards of the assumption, not model-based. "
+                            "Readers.tla makes the assumption explicit (no action writes the forest) and TLC explores all interleavings of concurrent reader cursor machines%s. "
+                            "Binding: %d real arenas (every %dth reachable model state <=4 slots and %d random arenas up to %d nodes) each read by %d threads at once "
+                            "(std::thread::scope on one &Arena, and rayon par_iter): %d per-thread observation logs, each equal to the single-threaded log. "
+                            "Absence of data races under ALL schedules follows from the type system given the two source-level facts, not from these executions.") % (
+        "ok" if auto_ok else "FAILED", "ok" if unsafe_ok else "FAILED", len(hits),
+        (" (%d states, %d transitions)" % (mc["states"], mc["transitions"])) if mc else "", t["arenas"], every, t["arenas"] - t["bundles"], t["max_nodes"], t["threads"], t["thread_logs"])
+    v.cov["parts"].append({"part": "threads", **{k: t[k] for k in ("bundles", "arenas", "threads", "thread_logs", "max_nodes", "par_iter", "observations_per_log_total")}})
+    v.cov["samples"].append({"arena": "every %dth bundle of %s + random histories" % (every, cfg), "threads": t["threads"]})
+    v.add_findings([f for f in t["findings"] if f["prop"] == "C18"], "threads")
 
 
 def main(argv):
@@ -160,10 +373,43 @@ def setup():
 
 
 def replay_file(prop, path):
+    """Re-executes the case of a VIOLATION line against the current sources. Exit 1 if it still fails."""
     r = json.load(open(path))
     f = r["finding"]
-    print(json.dumps(f, indent=1)[:4000])
     case = f.get("case") or {}
-    if "trace" in case:
-        print("re-validate with: TRACE=%s tlc -workers 1 -config spec/Trace.cfg spec/Trace.tla" % case["trace"])
-    return 1
+    v = Verdict(prop, r.get("tier", "quick"), LEVEL.get(prop, "other"))
+    v.known = []
+    if "trace" in case and "spec" in case:
+        # a recorded history: record it again with the same driver parameters and validate it
+        spec = dict(case["spec"])
+        b = build_harness("debug")
+        res = run_traces(b, [spec], "replay")
+        v.add_findings(res["findings"], "replay")
+    elif "replay_cmd" in f and case.get("path") is not None:
+        rc_ = f["replay_cmd"]
+        want = json.dumps(case["path"], sort_keys=True)
+        one = os.path.join(vlib.RUN, "one.ndjson.gz")
+        import gzip
+        found = False
+        with gzip.open(rc_["bundles"], "rt") as fin, gzip.open(one, "wt") as fout:
+            for line in fin:
+                if line.startswith("{") and json.dumps(json.loads(line)["path"], sort_keys=True) == want:
+                    fout.write(line)
+                    found = True
+                    break
+        if not found:
+            raise ToolError("the bundle of this case is not in " + rc_["bundles"])
+        b = build_harness(rc_.get("profile", "debug"))
+        res = run_replay(b, one, rc_["flags"], "replay-one")
+        v.add_findings(res["findings"], "replay")
+    else:
+        print(json.dumps(f, indent=1)[:6000])
+        print("this kind of finding has no automatic replay; the case is printed above")
+        return 1
+    still = [x for x in v.violations if x["kind"] == f["kind"]] or v.violations
+    for x in still[:3]:
+        print("VIOLATION property=%s replay=%s" % (prop, path))
+        print("  %s: %s" % (x["kind"], x["detail"][:400]))
+    if not still:
+        print("the case no longer fails")
+    return 1 if still else 0
